@@ -86,6 +86,9 @@ func (v *parser_) ParseSource(source string) (collection any) {
 	// The scanner runs in a separate Go routine.
 	Scanner().Make(v.source_, v.tokens_)
 
+	// Make sure the scanner is never left blocked on a full token queue.
+	defer v.drainTokens()
+
 	// Attempt to parse a collection.
 	var token TokenLike
 	var ok bool
@@ -120,6 +123,15 @@ func (v *parser_) ParseSource(source string) (collection any) {
 }
 
 // Private
+
+func (v *parser_) drainTokens() {
+	// The scanner closes the queue after the EOF token, so reading the unread
+	// tokens until the queue reports that it is closed lets the scanner finish.
+	var ok = true
+	for ok {
+		_, ok = v.tokens_.RemoveHead()
+	}
+}
 
 func (v *parser_) formatError(token TokenLike) string {
 	// Format the error message.
